@@ -534,9 +534,31 @@ func makeShapes(tag string, r *vrng) (*api.Shapes, api.Shapes) {
 			if r.coin() {
 				th.S.SetTo("s-" + tag)
 			}
+			// entries differ in which optional members they carry
+			if r.coin() {
+				th.T.SetTo(fmt.Sprintf("t%d-%s", i, tag))
+			}
+			if r.coin() {
+				tm := api.ThingM{}
+				for j, k := 0, r.intn(3); j < k; j++ {
+					tm[fmt.Sprintf("m%d-%d", i, j)] = r.intn(1000)
+				}
+				th.M.SetTo(tm)
+			}
 			m[fmt.Sprintf("th%d-%s", i, tag)] = th
 		}
 		sh.Things.SetTo(m)
+	}
+	if r.coin() {
+		idx := api.ShapesIndex{}
+		for i, n := 0, 1+r.intn(3); i < n; i++ {
+			inner := api.ShapesIndexItem{}
+			for j, k := 0, r.intn(3); j < k; j++ {
+				inner[fmt.Sprintf("k%d-%d", i, j)] = fmt.Sprintf("v%d-%s", j, tag)
+			}
+			idx[fmt.Sprintf("ix%d", i)] = inner
+		}
+		sh.Index.SetTo(idx)
 	}
 	if r.coin() {
 		sh.I32.SetTo(int32(r.intn(1<<31-1)) - 1<<30)
